@@ -311,6 +311,15 @@ Proof.
     eapply steps_trans; [apply settle_steps|]. eapply steps_trans; [apply api_close_steps|apply settle_steps].
   - out.
   - eapply steps_trans; [apply steps_one, (p_out s (set_held false s)); try reflexivity; auto|apply settle_steps].
+  - set (s0 := settle c (set_held false s)).
+    assert (H0 : steps s s0).
+    { eapply steps_trans; [apply steps_one, (p_out s (set_held false s)); try reflexivity; auto|apply settle_steps]. }
+    pose proof (k_fsop_kern (K s0) o) as (A & B & C). destruct (k_fsop (K s0) o) as [k1 ok]. simpl in *.
+    eapply steps_trans; [exact H0|].
+    eapply steps_trans; [apply steps_one, (p_kern s0 k1 A B C)|].
+    eapply steps_trans; [apply steps_one, (p_kern _ (k_set_pend (skipn 10) k1)); reflexivity|].
+    eapply steps_trans; [apply api_close_steps|].
+    eapply steps_trans; [apply handle_batch_steps|apply settle_steps].
 Qed.
 
 Lemma run_steps c h : (∀ p, In (SAdd p) h → U (user_name c p)) → ∀ s, steps s (run c h s).
